@@ -37,7 +37,8 @@ def specEntry (s : S) (e : MEntry) : List TEv × S :=
      ⟨0, false, s.instr⟩)
 
 def okInstr (s : S) : Prop := s.ci = true → 0 ≤ s.instr ∧ s.instr ≤ 127
-def okEntry (e : MEntry) : Prop := e.value ≠ 0 ∧ ∀ n ∈ e.notes, okNote n
+/-- an entry the specification speaks about: non-zero value, notes in MIDI range, no tempo change (those: `entry_tempo_refines`) -/
+def okEntry (e : MEntry) : Prop := e.value ≠ 0 ∧ (∀ n ∈ e.notes, okNote n) ∧ e.bpm = none
 
 /-! ### single events -/
 
@@ -168,16 +169,16 @@ theorem entry_refines (t : MT) (evs : List TEv) (s : S) (e : MEntry) (hr : Rel t
     (he : okEntry e) :
     ∃ t', t.playEntry e = .ok t' ∧ Rel t' (evs ++ (specEntry s e).1) (specEntry s e).2 := by
   obtain ⟨r1, r2, r3, r4⟩ := hr
-  obtain ⟨hv, hn⟩ := he
+  obtain ⟨hv, hn, hb⟩ := he
   unfold MT.playEntry specEntry
-  rw [if_neg hv]
+  rw [if_neg hv, hb]
   cases hnotes : e.notes with
   | nil =>
     refine ⟨_, by simp; rfl, ?_⟩
     simp [Rel, r1, r2, r3, r4]
   | cons n rest =>
     have hn' : ∀ m ∈ n :: rest, okNote m := by rw [← hnotes]; exact hn
-    simp only [reduceCtorEq, if_false, bind, Except.bind]
+    simp only [reduceCtorEq, if_false, bind, Except.bind, pure, Except.pure]
     generalize ht0 : ({ t with pending := t.delay, delay := 0 } : MT) = t0
     have e0 : t0.evs = t.evs ∧ t0.pending = t.delay ∧ t0.delay = 0 ∧ t0.changeInstr = t.changeInstr ∧ t0.instr = t.instr := by
       subst ht0; simp
